@@ -10,9 +10,22 @@ def claim(pid, text, note, technique, design_ref):
 claim("C09",
   "Coq theorem python_identifier_valid: for every string and every good prefix, under the guard g_xid, the model of PythonIdentifier returns a valid non-keyword identifier "
   "(unbounded; table facts re-proved by vm_compute reflection on Unicode/keyword tables regenerated from the interpreter and /repo on every run); refutation witnesses for the guard's complement "
-  "(a², raw-name fallback). The model Names.v is tied to utils.py by a correspondence check evaluated inside Coq on ~25k (function,string) cases per quick run, and an oracle "
-  "(isidentifier/iskeyword, per-scope distinctness through the real parser) classifies failures by the Coq guard into known findings vs violations.",
-  "Trusted: Coq kernel+vm_compute; gen_tables.py translator; CPython str/re semantics; the hand-written model's regex semantics (validated by correspondence only); scope-level collision logic is checked by oracle, not proved.",
+  "(a², raw-name fallback). Second half (names of one scope never merge silently), model Scopes.v, theorems in ScopesThm.v, all for name lists of any length: "
+  "(a) model attributes (_add_if_no_conflict/_resolve_naming_conflict as a fold): attrs_distinct (under g_no_raw_fallback the fold succeeds, nothing is renamed, python names are pairwise distinct and equal "
+  "python_identifier n prefix false) + attrs_valid (then valid non-keyword identifiers under g_xid); attrs_last_pair_distinct (without the guard, exactly what one successful step guarantees: every earlier "
+  "property that collided with the new one's default name ends apart from it, and a new property that keeps its default name differs from all) + add_attrs_snoc; refutations attrs_distinct_refuted "
+  "(Self, self!, $Self -> two attributes named Self) and raw_fallback_not_identifier_refuted (a-b, a_b -> field_a-b). "
+  "(b) endpoint parameters (_check_parameters_for_conflicts with its dictionary, modified set - including the mis-keyed add - and re-run): conflict_check_terminates (fuel length+1, in fact 2, suffices: the re-run test compares "
+  "the set with itself); check_params_keys (no parameter lost or re-keyed); params_distinct_quiet (success + last run of the loop quiet => pairwise distinct, none is client/url; run-time guard g_last_pass_quiet); "
+  "params_distinct / model_params_distinct (static guard g_no_raw_fallback over all parameter names: success => exactly client/url renamed to <name>_<location>, pairwise distinct); params_distinct_refuted "
+  "(path x_header_path, path x_header, query X, header x -> two parameters x_header_path, no error). "
+  "(c) enum member keys: values_from_list_keys_nodup (Values.v). (d) classes: classes_distinct_or_error (generated class names pairwise distinct; every schema generated or reported; of two schemas with one derived "
+  "ClassName the later is reported) and modules_unchecked_refuted (AB / Ab: two classes, one module ab). "
+  "Correspondence evaluated inside Coq: ~25k (function,string) cases per quick run for Names.v; ~1.7k name lists per quick run for Scopes.v through the real property_from_data (object schema -> python names or "
+  "'Conflicting property names'), Endpoint.add_parameters (python names in iteration order or ParseError) and GeneratorData.from_dict (class names + duplicate-model errors). The oracle "
+  "(isidentifier/iskeyword/pairwise distinct/not reserved on the implementation's own output, plus name sets through the full parser) classifies failures by the Coq guards evaluated on the failing input into known findings vs violations.",
+  "Trusted: Coq kernel+vm_compute; gen_tables.py translator; CPython str/re semantics; the hand-written models' regex/dict semantics (validated by correspondence only); str.lower() final-sigma context rule is not modelled "
+  "(strings compared modulo sigma fold; scope name lists avoid U+03A3); same-name properties arriving through allOf (merge) and class_overrides are outside Scopes.v (C15, C16); tag/operation module scope is checked by oracle only.",
   "Coq proof (induction + table reflection) + in-Coq differential correspondence", "4/C09")
 
 claim("C19",
@@ -73,15 +86,16 @@ claim("C05",
   "(canary probes, tokenize / TOML scanner); all_sites_safe : forallb site_safe gen_sites = true by vm_compute; site_sound : for every acceptable site and every payload inside its computable slot_guard the "
   "emitted text re-lexes (PyLit lexers) to exactly the payload / the sanitised identifier with the lexer resuming after the literal. Sites that are safe only on a narrow domain are listed one by one in "
   "Sites.known_narrow with a finding id and a ..._refuted witness (desc_code_exec, meta_injection, path_injection, content_type_injection, const_fstring; class-level: name_backslash, nul_char, "
-  "default_not_verbatim, xid_gap); a new raw interpolation / comment / code context / unescaped path makes a regenerated row unacceptable and the obligation all_sites_safe fails. "
+  "linesep_newline, default_not_verbatim, xid_gap); a new raw interpolation / comment / code context / unescaped path makes a regenerated row unacceptable and the obligation all_sites_safe fails. "
   "Correspondence (evaluated inside Coq): escape_dq, py_repr, lex_string, safe_docstring (against the REAL Jinja macro), lex_docstring, TOML guard vs utils.remove_string_escapes / repr / tokenize+"
-  "ast.literal_eval / tomllib on ~8k hostile cases per quick run; the site table vs a second, differently shaped probe document. Oracle: ~900 generated trees per quick run (every emitted slot x 13 payload "
-  "classes x metadata flavours / option settings, packed absent slots, random multi-slot combinations): compile()/tomllib, AST shape equal to the canary-only rendering, payload marker only inside string "
+  "ast.literal_eval / tomllib on ~5.8k hostile cases per quick run (61k thorough); the site table vs a second, differently shaped probe document. Oracle: ~800 generated trees per quick run (emitted slots x 14 payload "
+  "classes x metadata flavours / option settings - in the quick tier two seed-chosen representatives per site signature get all classes, the rest four - packed absent slots, random multi-slot combinations; ~2.4k trees thorough): compile()/tomllib, AST shape equal to the canary-only rendering, payload marker only inside string "
   "tokens or sanitised identifiers, run-time-meaningful constants equal to the document text; every failure is classified by evaluating the Coq slot_guard of the sites of that slot in that file.",
   "Trusted: Coq kernel+vm_compute; translator gen_sites.py and the probe grammar harness/lib/probe.py (slot coverage = 130 probed slots; 29 pydantic str positions it does not fill are listed in evidence as "
   "unreached_fields); the sanitiser class of a site is inferred from one benign-specials probe and confirmed only by the oracle; CPython's tokenizer beyond string literals, f-string replacement fields "
   "(modelled as: a brace in document text is code), Jinja wordwrap/indent (assumed whitespace-only) and octal/\\x/\\u/\\N escape decoding are not modelled (lexer answers None; repr round trip proved for "
-  "printable strings only); identifier VALIDITY of ClassName / enum keys rests on C09 (here only the character-class theorem).",
+  "printable strings only); identifier VALIDITY of ClassName / enum keys rests on C09 (here only the character-class theorem); Jinja's indent filter is modelled only through the no_linesep guard conjunct; "
+  "stage C workers use Jinja's bytecode cache (checked byte-identical to an uncached rendering each run).",
   "Coq proof (induction on strings + reflection on a regenerated site table) + in-Coq differential correspondence + generated-tree oracle classified by the Coq guard", "4/C05")
 
 claim("C12",
@@ -190,6 +204,86 @@ claim("C17",
   "after-validators under non-Schema parents is an observed behaviour of the pinned pydantic, modelled and checked by B1. Unquoted YAML scalars that a JSON serialisation cannot express (e.g. response key 200 as an integer) "
   "are different documents, not notation variants.",
   "Coq proof (structural, all schemas) + in-Coq differential correspondence (validators, parser trees, loader) + byte-level metamorphic search classified by the Coq guards", "4/C17")
+
+claim("C06",
+  "PARTIAL. Proved in Coq about the executable model Cli.v (20 theorems in props/C06.v, all closed under the global context, for ALL inputs of the model): exit_status (exit code <> 0 <-> an ERROR-level "
+  "diagnostic exists, or fail_on_warning and the list is non-empty, for every diagnostic list); reject_writes_nothing / reject_is_error (a loader or validation error leaves the Fs.v tree unchanged and is reported "
+  "as exactly one ERROR-level diagnostic, exit 1); crash_writes_nothing, no_crash_in_guard + scalar_document_crash_refuted / missing_parent_dir_refuted (the two uncaught-exception sites of the pinned code are "
+  "modelled, switched by the regenerated facts gen_scalar_guard / gen_mkdir_parents, now both true after the fix commits); errors_are_values / errors_reach_cli (the list handed to handle_errors is exactly "
+  "collection.parse_errors ++ schemas.errors ++ parameters.errors ++ Project.errors: no stage drops a diagnostic, each is printed, an ERROR-level one forces exit 1); loops_terminate (the retry-until-no-progress loop of "
+  "_create_schemas/_process_models/build_parameters, for EVERY step function S -> item -> S * {done, re-queue e, drop e}: ends by its own exit test within |worklist|+1 rounds; the fuelled function realises the "
+  "fuel-free big-step semantics Runs, which is deterministic; fuel_irrelevant), loop_errors_complete / last_round_all_reported (no error of the loop is lost), retry_process_terminates (Retry.v of C12 is an instance); "
+  "body_ref_terminates (request-body $ref chain stops within |components|+1 steps), cycle_is_error, circular_is_cycle, chain_resolves; code_shape (the AST facts regenerated by translate/gen_cli.py - ErrorLevel members, "
+  "default levels, the exit rule of handle_errors, early returns of generate, _get_errors/GeneratorData aggregation, loader except clauses, the three loop skeletons, the cycle guard - still match the model). "
+  "NOT a theorem: that the Python code raises no exception / does not hang for any byte string; that half rests on the exploration (stage C), whose input distribution is written to evidence (input_histogram). "
+  "Correspondence (vm_compute in coqc): real cli.handle_errors on exhaustive-small + random error lists x fail_on_warning; in-process generate (outcome by error identity and level, tree effect, aggregation) on valid / "
+  "rejected / junk documents x three output-directory states; replay of every observed execution of the three retry loops (attempt order, stop point, kept errors, leftovers) and of _resolve_reference (random tables + "
+  "every call during generation) against the model; CLI subprocesses (20 s limit): exit status = model exit_code of the in-process diagnostics, no traceback, nothing written on rejection.",
+  "Trusted: Coq kernel+vm_compute; gen_cli.py; the pass-through observation wrappers of harness/lib/c06_worker.py; pydantic/ruamel/json/jinja2/the OS are runtimes, not modelled (their exceptions are reachable only by the "
+  "exploration: junk bytes as JSON and YAML, JSON values and near-miss dicts as documents, single/double node mutations of valid documents with 17 $ref forms and 50 contradictory keyword sets). Uncaught exceptions are "
+  "identified by exact site (exception type + innermost frame inside openapi_python_client + a structural input test); open findings reproduced on the pinned tree: enum_dup_crash (asserted by pinned tests), "
+  "default_nonfinite_crash, merge_default_crash, ref_urlparse_crash, load_depth_crash (RecursionError from json.loads), yaml_bigint_crash, yaml_depth_segfault (SIGSEGV in the YAML loader at nesting >= 25000), "
+  "name_too_long_oserror; scalar_document_crash and missing_parent_dir are fixed (a recurrence is a VIOLATION). CLI subprocesses run with _TYPER_STANDARD_TRACEBACK=1 (the rich traceback needs > 20 s per crash).",
+  "Coq proof about the total model (exit rule, aggregation, termination bounds) + in-Coq differential correspondence + junk/mutation exploration with a wall-clock limit for the never-raises half", "4/C06")
+
+claim("C16",
+  "PARTIAL. Proved in Coq (29 theorems in props/C16.v, all closed under the global context): (1) frame - the table of EVERY syntactic read of a configuration option (Python ast of openapi_python_client/**/*.py + Jinja ast of "
+  "every template, including reads through the derived values Project.project_name/package_name/version/project_dir/package_dir and the template globals built from them; regenerated by translate/gen_frame.py on every run; "
+  "unclassifiable uses of the Config object become `?` rows) lies inside the per-option documented site set written from the README (file, function/macro, syntactic context such as `test`, `arg:PythonIdentifier:prefix`, "
+  "`arg:write_text:encoding`): forallb (reads_within documented_sites) gen_option_reads = true by vm_compute reflection, with the soundness lemmas frame_sound / frame_reads_documented stating what the boolean means; "
+  "options_documented (ConfigFile fields = the README's option headings), defaults_documented, merge_faithful (Config.from_sources copies each field from the same-named ConfigFile field / CLI parameter), every_option_read. "
+  "(2) option lemmas about executable models, each for ALL inputs: override_is_renaming / override_local / override_injective (+ override_collision_refuted, override_module_collision_refuted) for Class.from_string with "
+  "class_overrides over Names.v's class_name / python_identifier; prefix_only_prefixes + needs_prefix_spec + class_prefix_only_prefixes (field_prefix changes a name iff the normalised name is empty / does not start with "
+  "XID_Start / contains a non-XID_Continue character / the original starts with `_`, and then only by the prefix itself); collect_spec (complete characterisation of EndpointCollection.from_data's tag selection incl. "
+  "duplicate/colliding tags and unparseable operations), all_tags_identical, first_tag_only, off_within_on; content_type_override / body_override / body_sent_as_itself / source_override / content_type_override_local over a "
+  "model of utils.get_content_type + email.message.get_content_type + body type / response source selection; flavour_files + flavour_only_table over Fs.gen_files (file set = package subtree, a function of the document alone, "
+  "under the package prefix + exactly {pyproject.toml, README.md, .gitignore, setup.py for setup, <pkg>/py.typed}); title_prefix_option; literal_enum_same_wire (+ _refuted outside the typed guard) on Codec.v's step semantics. "
+  "Correspondence (vm_compute in coqc, ~1.4k cases quick): Class.from_string with random override tables / prefixes, prefix sensitivity of PythonIdentifier/ClassName, get_content_type + _source_by_content_type + body_from_data "
+  "with random override tables on well-formed and hostile media type strings, endpoint_collections_by_tag for random tag lists with generate_all_tags on/off, ModelProperty.build's class for (title, name, parent, option), "
+  "generated file sets per flavour. Stage C (metamorphic): plain + atlas + random documents extended with operations (several tags, octet/form/text/custom media types, names needing a prefix, titled inline objects, enums); "
+  "15 options each toggled alone and in random pairs (the second option as fixed context); the option-on tree is compared with the option-off tree under the option's relation: byte-identical for "
+  "http_timeout / empty custom template dir / post_hooks (except the hook's own file) / file_encoding (after decoding); version / project / package overrides: identical after replacing the overridden string, and only in "
+  "pyproject.toml, setup.py, README.md and the package directory name; class_overrides / field_prefix / title option: a bijective renaming of the parser's classes, files identical after whole-word renaming back; "
+  "literal_enums / docstrings_on_attributes: only models/ api/ (resp. docstring statements, by AST) change; generate_all_tags: byte-identical module under every tag, first-tag module = option-off module, nothing outside api/; "
+  "content_type_overrides: tree equals that of the document with the target media types up to the media type string; metadata flavours: package subtree byte-identical. Wire behaviour (from_dict/to_dict round trips and endpoint "
+  "calls against httpx.MockTransport, both clients executed in fresh interpreters) is compared for the renaming, enum, docstring and media-type options; overridden media types must be sent with their original Content-Type.",
+  "NOT a theorem: that an option a function does not read cannot influence it (Python semantics; values the parser stores and passes on are not tracked by the syntactic frame) - trusted and probed by the metamorphic search. "
+  "Trusted: Coq kernel+vm_compute; gen_frame.py; the documented site sets are a hand reading of README.md / CLI help (docstrings_on_attributes is also allowed in client.py.jinja, where the generator applies the same convention; "
+  "inline children of an overridden class are renamed with it because their names are minted from the parent's class name); undoing a renaming is whole-word token replacement and files are then compared as multisets of lines "
+  "with Union[...] members sorted (imports and response unions are sorted by name); final sigma and lone surrogates are excluded from the name / media type inputs; multipart bodies are not executed. Open finding reproduced: "
+  "override_module_collision (a class_overrides module_name equal to another class's module is not diagnosed; two classes share one file) - classified by the Coq guard rename_injective_on.",
+  "Coq proof (table reflection for the frame; induction for the tag selection; case analysis for the option lemmas) + in-Coq differential correspondence + metamorphic tree/wire comparison", "4/C16")
+
+claim("C20",
+  "Proved in Coq (27 theorems in props/C20.v, all closed under the global context) about coq/Refs.v, an executable model of the parser's reference resolvers: (a) parse_reference_path (urlsplit's cleaning, scheme / authority / "
+  "fragment / query / params splitting over character tables regenerated from the running interpreter) and get_reference_simple_name: simple_name_last_segment, parse_ref_local ('#'+fragment is accepted and yields the fragment); "
+  "(b) request bodies: body_ref_terminates (the _resolve_reference loop stops within |components|+1 steps for EVERY table and start), body_ref_chain / body_ref_inline (an acyclic chain of references of ANY length resolves to its "
+  "terminal body, i.e. behaves as that body written inline), body_ref_missing, body_ref_cycle (a miss / a cycle is the error value), body_ref_local_lookup (for the well-formed local form the component looked up is the named one); "
+  "(c) parameters: copy_reads + table_is_copy (what a reference finds in the table built by build_parameters is the field-by-field copy of the component as written), param_ref_inline (for ALL component tables, ALL parameter lists "
+  "with ANY subset of items given by reference, ALL property builders / location validators: add_parameters yields the same (name, location, required, schema) sequence, the same error and the same Schemas state as on the list "
+  "with every reference replaced by the component as written), param_ref_inline_endpoint (operation-level list first, then path-item list, references resolved before the (name, location) de-duplication in both), "
+  "param_ref_canonical, path_item_never_overrides, bad_param_ref_contained; the proof consumes the REGENERATED facts gen_params_facts (every oai.Parameter field that add_parameters reads is among those parameter_from_data "
+  "copies; the model reads exactly those fields) - translate/gen_params.py re-reads the ast of parameter_from_data / add_parameters / _property_from_ref / response_from_data / build_parameters on every run, fail closed; "
+  "(d) responses: response_ref (a #/components/responses/X reference behaves as the inline response), response_other_error (under g_no_authority and g_single_segment every reference that resolves IS of that form; everything "
+  "else is an error value); (e) ref_same_wire (a schema reference may change only name / python_name / required / default: regenerated keyword list of the evolve call). Refutation witnesses, each a listed finding confirmed on the "
+  "code: body_ref_prefix_ignored, ref_netloc_ignored (+ response form), ref_urlparse_crash, response_ref_segments_ignored, param_ref_no_schema, param_key_ctrl_collision; non-vacuity examples for every guard. "
+  "Correspondence (vm_compute in coqc, ~3.4k cases quick): parse_reference_path / get_reference_simple_name on hostile strings; bodies._resolve_reference on random tables (chains to length 6, cycles, misses, 11 malformed forms; a "
+  "hang is observed through a deadline); build_parameters (ALL 13 fields of every registered Parameter + error counts) and Endpoint.from_data + add_parameters (per-location sequences or error class) on random tables and mixed "
+  "reference/inline lists at both levels; the statement of param_ref_inline re-evaluated on each case with the regenerated field list; response_from_data's reference case. Stage C: (1) random documents (parameters in all four "
+  "locations at operation and path-item level incl. same (name, location) at both, json/form/multipart/octet/unsupported bodies, 1-3 statuses) x random subsets of positions moved to components/parameters|requestBodies|responses "
+  "(shared components, body chains to length 6, shuffled sections, odd component keys): the whole generated tree and the diagnostics must be identical to the inline document, byte for byte; (2) 20 schema positions (property, "
+  "optional property, array item, union member, nullable, additionalProperties, allOf member, allOf-wrapper with default, query/header/list parameter schema, json/form body schema, response / response-list schema) x {model, enum} "
+  "by $ref vs inline copy, every single position and random subsets: from_dict/to_dict round trips, no-argument construction and endpoint calls (captured request, parsed response) of both generated clients compared modulo class "
+  "names; exactly one class / one defining module per referenced schema, imported by every holder and endpoint module, decoded values are instances of it; (3) 15-16 malformed reference forms (dangling, remote file/url, relative, "
+  "bare, empty, empty fragment, wrong section, percent-encoded, trailing slash, authority-only, query-only, extra segment, no leading slash, bracket, circular/self) x 12 position kinds: a diagnostic must appear and every other file must "
+  "equal the output of the document with the user of the reference (and its dependants) deleted; silent resolutions / crashes are classified by the model's guards evaluated in Coq into the listed findings, anything else is a VIOLATION "
+  "with (document, rewritten positions, first differing file) as replay.",
+  "Trusted: Coq kernel+vm_compute; translate/gen_params.py; property_from_data / validate_location / _check_parameters_for_conflicts enter the parameter theorems as universally quantified functions (stage B instantiates them from the "
+  "real property classes); urlsplit's validation of bracketed / non-ASCII authorities is outside the model (PRUnmodelled, compared by outcome only); Parameters.classes_by_name is not modelled (nothing reads it); the schema-reference "
+  "part (class evolution, dependency recording, default re-validation, shared class) rests on the regenerated evolve-field fact plus the executed-client comparison, not on a model of property_from_data (Graph.v covers removal "
+  "propagation for C07/C08); a dropped endpoint may leave orphan model modules / an empty tag package / to_multipart on a shared model behind (allowed by the containment comparison, as the statement allows index files to list "
+  "additional names); inline-vs-reference byte identity of MODEL modules is not claimed for schemas (an inline copy gets its own parent-prefixed class).",
+  "Coq proof (induction over chains / parameter lists, pigeonhole termination bound, reflection on regenerated field tables) + in-Coq differential correspondence + metamorphic inline<->reference oracle on generated trees and executed clients", "4/C20")
 
 def main():
     checks = []
